@@ -242,7 +242,8 @@ def model_check(prop, tier, seed, workdir):
                           workers=16, scratch=workdir, extra=["-coverage", "1"] if tier == "thorough" else None)
         bad = tlc.violated(out)
         if bad:
-            cex = os.path.join(ROOT, "evidence", "replays", "%s-spec-counterexample.txt" % prop)
+            cex = os.path.join(os.environ.get("VERIF_EVIDENCE_DIR") or os.path.join(ROOT, "evidence"),
+                               "replays", "%s-spec-counterexample.txt" % prop)
             os.makedirs(os.path.dirname(cex), exist_ok=True)
             with open(cex, "w") as fh:
                 fh.write(out)
